@@ -9,7 +9,7 @@ import z3
 
 import tempest.tools as tools
 
-from vf.engine.core import PathCtx, DomainError
+from vf.engine.core import PathCtx, DomainError, SymBool
 from vf.engine.harness import Obligation
 from vf.engine.real import LogVal, SymReal
 from vf.engine.arr import NpProxy, patched, sarr, inv_small, det_small
@@ -264,6 +264,68 @@ def make_trim(N, bins, ess):
                       theory="QF_NRA", max_paths=5000)
 
 
+
+def make_trim_fraction(wts, bins):
+    """trim_weights on a concrete weight vector in real binary64 arithmetic (numpy itself), the requested fraction ANY real in (0, 1):
+    the walk down the percentile grid must stop on the grid. In exact arithmetic the untrimmed set (percentile 0) has ratio exactly 1;
+    in doubles the second normalisation of the already normalised weights moves them by an ulp and the ratio can come out below 1,
+    so a fraction close enough to 1 is never reached."""
+    W = [float(Fraction(x)) for x in wts]
+    N = len(W)
+
+    class LoopOverrun(Exception):
+        pass
+
+    def harness(ctx: PathCtx):
+        ess = real(ctx, "ess", lo=0, hi=1, lo_strict=True, hi_strict=True)
+        calls = {"n": 0}
+        orig_pct = np.percentile
+
+        def pct(a, q, *aa, **kk):
+            calls["n"] += 1
+            if calls["n"] > bins:
+                raise LoopOverrun()
+            return orig_pct(a, q, *aa, **kk)
+
+        class Frac:
+            """the requested fraction as the right operand of `ratio >= ess` (ratio a concrete double)"""
+            __array_priority__ = 1000
+
+            def __le__(self, other):
+                # the fraction is a double: nothing lies strictly between `other` and the next double above it
+                r = float(other)
+                ctx.assume(z3.Or(le(ess, Fraction(r)), le(Fraction(float(np.nextafter(r, np.inf))), ess)))
+                return bool(SymBool(le(ess, Fraction(r))))
+
+            def __rge__(self, other):
+                return self.__le__(other)
+
+        try:
+            with patched(tools, np=NpProxy(overrides={"percentile": pct})):
+                idx, wt = tools.trim_weights(np.arange(N), np.array(W), ess=Frac(), bins=bins)
+        except LoopOverrun:
+            ctx.fail("walk-stops-on-the-percentile-grid", "no grid point reached the requested fraction: index below 0")
+            return None
+        ctx.ok("walk-stops-on-the-percentile-grid")
+        return None
+
+    def replay(m, label, v):
+        e = float(m["ess"])
+        if not e < 1.0:
+            e = 1.0 - 2.0 ** -53
+        try:
+            tools.trim_weights(np.arange(N), np.array(W), ess=e, bins=bins)
+        except IndexError as ex:
+            return {"reproduced": True, "signature": "trim_weights:walk-leaves-the-grid", "payload": {"w": W, "ess": e, "bins": bins},
+                    "what": f"trim_weights(arange({N}), {W}, ess={e!r}, bins={bins}) raises IndexError: {ex} - the ESS ratio of the untrimmed set "
+                            f"comes out below the requested fraction after the second normalisation"}
+        return {"reproduced": False, "what": f"ess={e!r} stops on the grid"}
+
+    return Obligation(f"trim-fraction-w{'_'.join(map(str, wts)).replace('/', 'over')}-bins{bins}", harness, replay=replay, encodes=[tools.trim_weights],
+                      bounds=f"concrete weights {list(map(str, wts))}, bins={bins}, requested fraction ANY double in (0,1) (a real constrained not to fall between the compared double and its successor); weights arithmetic is numpy's own binary64",
+                      stubs=["np.percentile counted (at most `bins` evaluations)"], theory="QF_LRA")
+
+
 # ------------------------------------------------------------------ volume_variation
 
 
@@ -425,7 +487,7 @@ def make_vv_scaling(pts, wts, shear=False):
 
 def obligations(tier):
     obs = [make_ess(2), make_ess(3), make_ess_rounding(2), make_ess_rounding(2, "uniform"), make_compute_ess(2), make_compute_ess(3),
-           make_trim(2, 2, "9/10"), make_trim(3, 3, "9/10"), make_trim(3, 2, "1/2"),
+           make_trim(2, 2, "9/10"), make_trim(3, 3, "9/10"), make_trim(3, 2, "1/2"), make_trim_fraction(("3/16", "5/8", "3/8"), 4), make_trim_fraction(("3/8", "1/8", "9/16", "5/16", "1/16"), 10), make_trim_fraction(("1/4", "1/2", "1/4"), 4),
            make_vv(1, 2, "nonneg"), make_vv(1, 2, "affine"), make_vv(1, 2, "wscale"),
            make_vv(1, 3, "affine", wgrid=(1, 1, 1)), make_vv(1, 3, "affine", wgrid=(1, 2, 5)), make_vv(1, 3, "wscale", wgrid=(3, 1, 2)),
            make_vv_scaling(((0, 0), (1, 0), (0, 1), (2, 3)), (1, 2, 3, 1)), make_vv_scaling(((0, 0), (1, 0), (0, 1), (2, 3)), (1, 2, 3, 1), shear=True),
